@@ -22,7 +22,7 @@ import (
 // timeout; no handler panic other than ErrAbortHandler; after the faults are switched off and
 // windows / breaker timeout have elapsed, the last three of five probes succeed; gauges are 0.
 
-var c03Faults = []string{"refuse", "hang", "reset", "short", "garbage", "500", "slow", "client-abort-upload", "client-abort-download"}
+var c03Faults = []string{"refuse", "hang", "reset", "short", "garbage", "500", "slow", "client-abort-upload", "client-abort-download", "status099", "status000"}
 
 type c03Cfg struct {
 	Strategy                           string
